@@ -3,3 +3,5 @@ import Proofs.C03Sym
 import Proofs.C02Fkm
 import Proofs.ThreePoint
 import Proofs.RainflowCorollaries
+import Proofs.C03Nan
+import Proofs.RainflowLiteral
